@@ -128,4 +128,49 @@ theorem ids_accepted_iff (ids : List String) : idIssues ids = [] ↔ ids.Nodup :
 example : nameIssues ["a", "b", "a", "", "", "b", "c"] = [2, 5] := by decide
 example : idIssues ["x", "y", "x", "z", "x"] = ["x"] := by decide
 
+/-- the CellML 2.0 identifier: a non-empty sequence of basic Latin letters, digits and underscores that does not begin
+    with a digit -/
+def SpecIdentifier (s : List Char) : Prop :=
+  ∃ c rest, s = c :: rest ∧ isDigit c = false ∧ ∀ x ∈ s, isIdChar x = true
+
+/-- **identifier syntax**: a name is accepted exactly when it is an identifier of the specification -/
+theorem identifier_ok_iff (s : List Char) : identifier s = .ok ↔ SpecIdentifier s := by
+  cases s with
+  | nil => simp [identifier, SpecIdentifier]
+  | cons c rest =>
+    unfold identifier SpecIdentifier
+    by_cases hd : isDigit c = true
+    · simp [hd]
+    · have hd' : isDigit c = false := by simpa using hd
+      simp only [hd', Bool.false_eq_true, if_false]
+      constructor
+      · intro h
+        split at h
+        · rename_i hall
+          exact ⟨c, rest, rfl, hd', by simpa [List.all_eq_true] using hall⟩
+        · cases h
+      · rintro ⟨c', rest', heq, _, hall⟩
+        have : ((c :: rest).all isIdChar) = true := by simpa [List.all_eq_true] using hall
+        simp [this]
+
+/-- a rejected name is rejected under the rule that says why -/
+theorem identifier_empty : identifier [] = .empty := rfl
+
+theorem identifier_digit (c : Char) (rest : List Char) (h : isDigit c = true) : identifier (c :: rest) = .beginsWithDigit := by
+  simp [identifier, h]
+
+theorem identifier_other (c : Char) (rest : List Char) (h : isDigit c = false) (hx : ∃ x ∈ c :: rest, isIdChar x = false) :
+    identifier (c :: rest) = .notLatinAlphanumeric := by
+  obtain ⟨x, hmem, hxf⟩ := hx
+  have hall : ((c :: rest).all isIdChar) = false := by
+    cases hq : (c :: rest).all isIdChar with
+    | false => rfl
+    | true =>
+      have := (List.all_eq_true.mp hq) x hmem
+      rw [hxf] at this; cases this
+  unfold identifier
+  simp only [h, Bool.false_eq_true, if_false, hall]
+
+example : identifier "a_1".toList = .ok ∧ identifier "1a".toList = .beginsWithDigit ∧ identifier "a-b".toList = .notLatinAlphanumeric ∧ identifier [] = .empty := by decide
+
 end Cellml.Props.C04
